@@ -386,6 +386,33 @@ func runC12() {
 				break
 			}
 		}
+		if !p.HasMap && p.Name != "id" { // <name>Map of a property that is no natural-language one is a member like any other: kept as unknown
+			doc := map[string]interface{}{"@context": allContexts, "type": ty.Name, p.Name + "Map": "kept verbatim"}
+			v, err, pk := toType(doc)
+			s.Evaluations++
+			if err == nil && !pk && v != nil {
+				if _, has := unknownOf(v)[p.Name+"Map"]; !has {
+					s.Violations = append(s.Violations, Violation{What: fmt.Sprintf("member %sMap (no natural-language property) is not kept as an unknown member", p.Name),
+						Sig: "C12:map-suffix-unknown:" + p.Name, Replay: map[string]interface{}{"type": ty.Name, "member": p.Name + "Map"}})
+				}
+			}
+		}
+		hasBool := false
+		for _, m := range p.Members {
+			if m.Kind == "V:boolean" {
+				hasBool = true
+			}
+		}
+		if hasBool { // the lexical space of xsd:boolean: true, false, 1, 0 and no other number
+			for _, num := range []float64{7, 2.5, -1, 4000000000} {
+				got, _ := kindsOf(ty, p, p.Name, num)
+				if strings.Contains(got, "@boolean") {
+					s.Violations = append(s.Violations, Violation{What: fmt.Sprintf("property %s reads the number %v as a boolean", p.Name, num),
+						Sig: "C12:boolean-number:" + p.Name, Replay: map[string]interface{}{"type": ty.Name, "property": p.Name, "value": num}})
+					break
+				}
+			}
+		}
 		if p.HasMap {
 			for _, key := range []string{p.Name, p.Name + "Map"} {
 				for _, val := range []interface{}{map[string]interface{}{"en": "x", "n": 5.0}, map[string]interface{}{"en": []interface{}{"a"}}, map[string]interface{}{"en": "x", "o": map[string]interface{}{"k": "v"}},
